@@ -267,7 +267,7 @@ func hcC17PoolReturns(c *Ctx, fnName, reserve string) {
 		conn := r.Results[0]
 		n++
 		if ex, ok := conn.(*ssa.Extract); ok {
-			if call, ok := ex.Tuple.(*ssa.Call); ok && CalleeName(&call.Call) == "(*http2.Transport).dialClientConn" && Term(call.Call.Args[3]) == "true" {
+			if call, ok := ex.Tuple.(*ssa.Call); ok && CalleeName(&call.Call) == "(*http2.Transport).dialClientConn" && Term(BaselineArgs(&call.Call)[3]) == "true" {
 				viaDial++
 				continue
 			}
@@ -275,7 +275,7 @@ func hcC17PoolReturns(c *Ctx, fnName, reserve string) {
 		ok := false
 		for _, f := range FactsAtInstr(in) {
 			call, isCall := f.If.Cond.(*ssa.Call)
-			if isCall && f.Atom.Kind == TRUE && CalleeName(&call.Call) == reserve && call.Call.Args[0] == conn {
+			if isCall && f.Atom.Kind == TRUE && CalleeName(&call.Call) == reserve && BaselineArgs(&call.Call)[0] == conn {
 				ok = true
 			}
 		}
